@@ -181,7 +181,25 @@ MissQ ==
        IN  /\ UNCHANGED vars
            /\ Emit(step, Obs(n, live, cached) @@ [pp |-> JPosSeq(pp)])
 
-Next == Modify \/ BadModify \/ BadVerify \/ VerifyRemember \/ Ingest \/ Prune \/ Undo \/ FromRoots \/ Restore \/ MissQ
+\* Undo of the newest block with a proof that lacks its hashes: a partial forest has to
+\* refuse it.  What a refused Undo leaves behind is not specified (the code refuses after it
+\* has taken the additions back), so the behaviour is not continued from here: the step is
+\* emitted like a query, and the replay only checks that the call returns and that the
+\* forest still answers afterwards (no lock is left behind).
+BadUndo ==
+  /\ "badundo" \in Acts
+  /\ stack # <<>>
+  /\ LET prev == Head(stack)
+         D    == prev.live \ live
+         ord  == AscSeq(D)
+         pf   == CanonProof(prev.n, prev.live, ord)
+         step == [ a |-> "badundo", d |-> ord, k |-> n - prev.n, pf |-> JProof(pf),
+                   pre |-> Roots(prev.n, prev.live), post |-> Roots(n, live) ]
+     IN  /\ Len(pf.p) > 0
+         /\ UNCHANGED vars
+         /\ Emit(step, Obs(n, live, cached))
+
+Next == Modify \/ BadModify \/ BadVerify \/ BadUndo \/ VerifyRemember \/ Ingest \/ Prune \/ Undo \/ FromRoots \/ Restore \/ MissQ
 Spec == Init /\ [][Next]_vars
 
 TypeOK == n \in 0..MaxN /\ live \subseteq 0..(n-1) /\ cached \subseteq live
